@@ -113,6 +113,31 @@ def run(ctx):
             dm = utils.det(Hm, 'Moore'); wm = float(math.prod(ev))
             if abs(complex(dm) - wm) > 1e-8 * max(1, abs(wm)): viol('C11:det:moore', 'Moore determinant is not the product of the eigenvalues', {'n': n, 'eigenvalues': [str(x) for x in ev]}, dm, wm)
             ctx.count(('det', n, rep), True)
+    from .c02 import rexp_ref
+    def _herm_patterns(n):
+        out = []
+        out.append(('exchange', [[Q(1) if i + j == n - 1 else Q() for j in range(n)] for i in range(n)]))
+        G = qx.rand_int(rng, n, n, -3, 3); Hq = qx.add(G, qx.herm(G))
+        Z = [r[:] for r in Hq]
+        if n >= 3:
+            Z[1][0] = Q(); Z[0][1] = Q()
+            if Z[2][0].is_zero(): Z[2][0] = Q(0, 1, 0, 2); Z[0][2] = Q(0, -1, 0, -2)
+        out.append(('zero-leading-entry', Z))
+        Ar = qx.zeros(n, n)
+        for i in range(n):
+            Ar[i][i] = Q(1 + i)
+            if i >= 2: Ar[i][0] = Q(0, 0, 1, 0); Ar[0][i] = Q(0, 0, -1, 0)
+        out.append(('arrowhead-without-first-spoke', Ar))
+        out.append(('negative-definite', qx.scale(-1, qx.add(qx.mm(G, qx.herm(G)), qx.eye(n)))))
+        return out
+    for n in range(1, (5 if ctx.quick() else 7)):
+        for cls, Hq in _herm_patterns(n):
+            Hn = qx.to_np(Hq); ev = np.linalg.eigvalsh(np.array([[float(v) for v in row] for row in rexp_ref(Hq)]))[::4]
+            want = float(np.prod(ev)); inp = {'n': n, 'class': cls, 'A': [[[str(c) for c in a.t()] for a in row] for row in Hq]}
+            try: dm = utils.det(Hn, 'Moore')
+            except Exception as e: viol(f'C11:det:moore:raises:{cls}', f'Moore determinant raised {e!r}', inp); continue
+            if not abs(complex(dm) - want) <= 1e-8 * max(1.0, abs(want), float(np.prod(np.abs(ev) + 1e-300)) ** 1.0): viol(f'C11:det:moore:{cls}', 'Moore determinant of a Hermitian matrix is not the product of its eigenvalues', inp, dm, want)
+            ctx.count(('moore', n, cls), True)
     res = cm.run_cases(ctx, 'cases_rank', HEADER, rterms, 'check_rank', shard=100)
     if res is not None:
         ctx.cov['traces_validated_against_impl'] += len(res)
